@@ -9,11 +9,22 @@ from props.resp_run import disc
 from vf.core import Ctx
 
 
+def disc17(sc: dict, tr: dict, clause: str, pos: int) -> str:
+    if clause == 'C17_AnnouncedNotWithdrawn':
+        evs = tr['events']
+        tc = next((e['t'] for e in evs if e['ev'] == 'api' and e['op'] == 'close'), None)
+        te = evs[pos - 1]['t'] if 0 < pos <= len(evs) else None
+        if tc is not None and te is not None and any(e['ev'] == 'api_ret' and e['op'] == 'reg' and e.get('ok') and tc <= e['t'] <= te
+                                                     for e in evs):
+            return 'registration-completed-during-close'
+    return disc(sc, tr, clause, pos)
+
+
 def run_scenarios(ctx: Ctx, scenarios: list) -> None:
     traces = trace_run.record_all('props.respfam', 'Recorder', scenarios, 16 if ctx.thorough else 8)
     ctx.log('recorded %d traces, %d events' % (len(traces), sum(len(t['events']) for t in traces)))
     verdicts, states, trans = trace_run.validate('Trace_Responder', traces, {'own': 'C17', 'slack': 5}, batch=250, par=4)
-    res = trace_run.triage(ctx, 'C17', scenarios, traces, verdicts, disc)
+    res = trace_run.triage(ctx, 'C17', scenarios, traces, verdicts, disc17)
     inflight = {'queued_answers': 0, 'probing': 0, 'browser': 0, 'lookup': 0, 'tc_hold': 0, 'post_close_traffic': 0}
     nontrivial = set()
     for t in traces:
